@@ -1,14 +1,18 @@
 from .common import COMMON_TB
 
 CFG = dict(
-    coq="Properties/C06.v",
-    areas=["lzmadec"],
+    coq=["Properties/C06.v", "Properties/C06Mt.v"],
+    areas=["lzmadec", "mt"],
     level="proof",
-    theorems_expected=["C06_decode_bit_never_panics", "C06_run_rc_total", "C06_window_rejects_far", "C06_decode_total"],
+    theorems_expected=["C06_decode_bit_never_panics", "C06_run_rc_total", "C06_window_rejects_far", "C06_decode_total", "C06_lzip_scan_total"],
     rule="cases = streams produced by the crate's LZMA/LZMA2 writers under random in-range options (plus trailing bytes), the same streams "
          "corrupted (bit flip, byte substitution, truncation, deletion, header flip) and random byte strings, each fed to LZMAReader "
          "(new_mem_limit / new_with_props / new) and LZMA2Reader with a destination-size history; the observation "
          "(END+bytes+unconsumed | ERR kind+bytes | constructor error | PANIC | TIMEOUT) must equal the extracted model's; "
+         "area mt (shared with C08-C10): the multi-threaded readers/writers on the shuttle scheduler, including LZIP files whose member_size "
+         "fields are hostile (0 in the last or an earlier member, below a header, off by one, beyond the file, 2^63, 2^64-1), truncated, bit-flipped or "
+         "prefixed by garbage: LZIPReaderMT::new must return a member count or an error equal to the model's scan_members, within the watchdog's "
+         "CPU budget and without passing the allocation cap (RUNAWAY); "
          "distinct_nontrivial = distinct command lines whose observation is not an empty result",
     trusted_base=COMMON_TB + ["liblzma as reference decoder in the oracle (content must agree when both accept)"],
     assumptions=["the underlying reader is a perfect in-memory source (I/O faults are C05's business)"],
